@@ -55,6 +55,11 @@ checks["C17"]=dict(
    note="Trusted: go/types; syntactic access paths with one level of local aliasing (no points-to analysis offline). Appends onto shared backing arrays of trail/comment string slices are not claimed. Type-correctness of paths on concrete schemas is not decided.",
    technique="effects (write-set) analysis of veneer closures + ownership lint + selector-guardedness + copy-method coverage",
    design="§3.C17")
+checks["C09"]=dict(
+   text="Generator-side necessary conditions for builders: derivation -> veneers -> nil-check generation in that order with per-scope bookkeeping; every language's assignment template renders nil checks (and, outside Go, constraints) before the assignment; the emitted Go Build() validates, and every builder-struct field the option templates write is read by Build() (one known finding: builder.errors); the constraint templates translate every operator a parser can produce (length operators to the right comparison); constraint derivation and path freshness shared with C16/C17.",
+   note="Trusted: text/template/parse trees of cog's own templates; the text of the emitted Go builder is inspected with the actions replaced by placeholders (no Go parsing of emitted code). Behaviour of generated builders (an option differs exactly at its target, Python semantics) is not decided.",
+   technique="must-call-in-order on the Go call sites + template-AST rules (range/if/template nodes) + operator table",
+   design="§3.C09")
 pending = {}
 props = [json.loads(l) for l in open(os.path.join(here, "properties.jsonl"))]
 m = {
